@@ -1018,6 +1018,7 @@ func RunC18(t *kernel.Tape, o Opts) *Result {
 					if pv == nil {
 						op.sig = uni.Signature(g, err)
 						op.desc = uni.Describe(g, err)
+						op.dl = endedByDeadline(g, err)
 						if g != nil {
 							op.nodes = len(g.Nodes)
 						}
@@ -1209,6 +1210,11 @@ func RunC18(t *kernel.Tape, o Opts) *Result {
 				}
 				if afterFault {
 					probe(res, "clean_resolves_judged_after_an_aborted_op", 1)
+				}
+				if op.dl && kernel.TimersStarted() > 0 {
+					// the code under test set itself a deadline and says so
+					probe(res, "ops_ended_by_a_deadline_of_the_code_under_test", 1)
+					continue
 				}
 				if op.sig != refSig[op.Key] {
 					violate(res, "result-mismatch", "result-mismatch:api-vs-local", j, "task %d: %s through the APIClient differs from resolving the same data in a LocalClient.\n--- local:\n%s\n--- api:\n%s", i, op, refDesc[op.Key], op.desc)
